@@ -30,7 +30,7 @@ theorem block_pt {bins : List (K × K)} {st st' : List K × Option K × Bool} {c
     {j : Nat} {P : Nat → Prop}
     (hb : diffBlock bins st c j = .ok st') (hpt : ∀ k, ¬ P k → st.1[k]? = gapAt bins k) :
     (∀ k, ¬ (P k ∧ ¬ (c = true ∧ k = j)) → st'.1[k]? = gapAt bins k) := by
-  unfold diffBlock at hb
+  rw [diffBlock_def] at hb
   by_cases hc : c = true
   · rw [if_pos hc] at hb
     split at hb
@@ -60,7 +60,7 @@ theorem block_pt {bins : List (K × K)} {st st' : List K × Option K × Bool} {c
 theorem updateDiffs_gaps {h h' : Hist K} {i : Nat} {d0 : List K} (hok : updateDiffs h i = .ok h')
     (hd : h.diffs = some d0) (hpt : ∀ k, ¬ Pend h.bins.length i k → d0[k]? = gapAt h.bins k) :
     h'.bins = h.bins ∧ h'.min = h.min ∧ h'.max = h.max ∧ h'.cap = h.cap ∧ h'.diffs = some (gaps h.bins) := by
-  unfold updateDiffs at hok
+  rw [updateDiffs_def] at hok
   rw [hd] at hok
   simp only at hok
   obtain ⟨s1, h1, hok⟩ := bind_eq_ok hok
@@ -198,7 +198,8 @@ theorem coherent_trimInPlace {h h' : Hist K} {v c : K} {ib : Nat} (hc : Coherent
     (hok : trimInPlace h v c ib = .ok h') :
     Coherent h' ∧ h'.min = h.min ∧ h'.max = h.max ∧ h'.cap = h.cap ∧ (h.diffs = none → h'.diffs = none) ∧
     ∃ cv cf, h.bins[ib]? = some (cv, cf) ∧
-      h'.bins = h.bins.set ib (Gen.DistogramExpr.inPlaceCentre cv cf v c, Gen.DistogramExpr.inPlaceCount cv cf v c) := by
+      h'.bins = h.bins.set ib (Gen.DistogramOps.inPlaceStored (Gen.DistogramExpr.inPlaceCentre cv cf v c) cv v,
+        Gen.DistogramExpr.inPlaceCount cv cf v c) := by
   unfold trimInPlace at hok
   split at hok
   · rename_i cv cf hb
@@ -284,7 +285,7 @@ theorem coherent_insertBin {h h' : Hist K} {neg : Bool} {idx : Nat} {v c : K} (h
     (hok : insertBin h neg idx v c = .ok h') :
     Coherent h' ∧ h'.min = h.min ∧ h'.max = h.max ∧ h'.cap = h.cap ∧ (h.diffs = none → h'.diffs = none) ∧
     h'.bins = (if neg then h.bins ++ [(v, c)] else h.bins.insertIdx idx (v, c)) := by
-  unfold insertBin at hok
+  rw [insertBin_def] at hok
   cases hn : neg with
   | true =>
     rw [hn] at hok
@@ -377,8 +378,8 @@ theorem coherent_trimStep {h h' : Hist K} (hc : Coherent h) (hok : trimStep h = 
     Coherent h' ∧ h'.min = h.min ∧ h'.max = h.max ∧ h'.cap = h.cap ∧ (h.diffs = none → h'.diffs = none) ∧
     ∃ i v1 f1 v2 f2, trimIndex h = .ok i ∧ h.bins[i]? = some (v1, f1) ∧ h.bins[i + 1]? = some (v2, f2) ∧
       h'.bins = (h.bins.eraseIdx (i + 1)).set i
-        (Gen.DistogramExpr.trimCentre v1 f1 v2 f2, Gen.DistogramExpr.trimCount v1 f1 v2 f2) := by
-  unfold trimStep at hok
+        (centroid v1 f1 v2 f2, Gen.DistogramExpr.trimCount v1 f1 v2 f2) := by
+  rw [trimStep_def] at hok
   obtain ⟨i, hi, hok⟩ := bind_eq_ok hok
   split at hok
   · rename_i v1 f1 v2 f2 hb1 hb2
@@ -390,7 +391,7 @@ theorem coherent_trimStep {h h' : Hist K} (hc : Coherent h) (hok : trimStep h = 
       split at hok
       · simp at hok
       · obtain ⟨h1, hu, hok⟩ := bind_eq_ok hok
-        have hlen : ((h.bins.eraseIdx (i + 1)).set i (Gen.DistogramExpr.trimCentre v1 f1 v2 f2,
+        have hlen : ((h.bins.eraseIdx (i + 1)).set i (centroid v1 f1 v2 f2,
             Gen.DistogramExpr.trimCount v1 f1 v2 f2)).length = h.bins.length - 1 := by
           simp [List.length_eraseIdx, hlt]
         obtain ⟨e1, e2, e3, e4, e5⟩ := updateDiffs_gaps hu (d0 := d.eraseIdx i) rfl (by
